@@ -416,6 +416,9 @@ class _Run:
         if isinstance(v, Obj):
             if a in v.attrs:
                 return v.attrs[a]
+            if a == "needs_input_grad":
+                # the autograd context of a forward that the driver did not configure: every gradient may be needed
+                return (True,) * 8
             raise Unknown(f"obj.{a}")
         if isinstance(v, Opaque):
             return Opaque(f"{v.what}.{a}")
